@@ -334,7 +334,10 @@ def run_histories(cfg, cases, seed=0):
             model, paths, secs = [], [], []
             for ci, case in enumerate(cases):
                 renews = [renewal_time(policy, lab) for lab in case["leases"]]
+                # two out of three shares live in ONE prefix directory, so that a time slice can end inside it
                 si = _h(b"hsi:%d:%d:" % (seed, ci) + repr(sorted(case.items())).encode())[:16]
+                if ci % 3:
+                    si = b"\x53\x40" + si[2:]
                 data = _h(b"hdata:" + si)[:20]
                 path = os.path.join(ss.sharedir, storage_index_to_dir(si), "0")
                 secrets = [(_h(b"renew:%d:" % i + si), _h(b"cancel:%d:" % i + si)) for i in range(len(renews))]
@@ -357,7 +360,18 @@ def run_histories(cfg, cases, seed=0):
             def cycle(number, now_off):
                 boot.VT.offset = NOW + now_off - boot.R.seconds()
                 clk.rightNow = float(NOW + now_off)
-                lc.start_slice()
+                if cfg.get("sliced"):
+                    # the crawler's time slice ends after every bucket (cpu_slice = 0): the cycle is the sum of
+                    # as many slices as it takes, each resumed from the crawler's own cursor
+                    lc.cpu_slice = 0
+                    for _ in range(4000):
+                        lc.start_slice()
+                        for dc in clk.getDelayedCalls():
+                            dc.cancel()
+                        if lc.state["last-cycle-finished"] == number:
+                            break
+                else:
+                    lc.start_slice()
                 if lc.state["last-cycle-finished"] != number:
                     bad.append(("cycle-not-finished", "cycle %d did not finish in one start_slice(): %r" % (number, lc.state.get("last-cycle-finished"))))
                     return False
@@ -420,8 +434,9 @@ def _hchunk(chunk, seed):
         for case, bad in zip(group, per_case):
             res.count("evaluations")
             res.count("histories")
-            if bad:
-                # confirm alone on its own server
+            if bad and not case.get("sliced"):
+                # confirm alone on its own server (not for the sliced crawl: what is examined there is how a slice
+                # that ends inside a prefix directory treats the OTHER buckets of that directory)
                 hb2, pc2 = run_histories(case, [case], seed)
                 bad = pc2[0] + hb2
             for sig, msg in bad:
@@ -431,6 +446,13 @@ def _hchunk(chunk, seed):
 
 def replay(case):
     if case.get("history"):
+        if case.get("sliced"):
+            # replayed in the company it failed in: the first 60 histories of its (policy, kind)
+            tier = "quick" if len(case["leases"]) == 2 else "thorough"
+            group = [dict(c, sliced=True) for c in history_cases(tier) if c["policy"] == case["policy"] and c["kind"] == case["kind"]][:60]
+            hb, pc = run_histories(group[0], group)
+            me = [i for i, c in enumerate(group) if c["leases"] == case["leases"] and c["renewed"] == case["renewed"]]
+            return hb + (pc[me[0]] if me else [])
         hb, pc = run_histories(case, [case])
         return hb + pc[0]
     return run_case(case)[0]
@@ -456,6 +478,9 @@ def run(tier, seed):
         g = hgroups[k]
         for i in range(0, len(g), 120):
             hitems.append(g[i:i + 120])
+            if i == 0:
+                # the first server of each (policy, kind) once more with a time slice ending after every bucket
+                hitems.append([dict(c, sliced=True) for c in g[:60]])
     res.merge(common.pmap(_hchunk, hitems, (seed,)))
     cov = {
         "evaluations": res.counts.get("evaluations", 0),
@@ -466,7 +491,7 @@ def run(tier, seed):
         "crawl_cycles": res.counts.get("crawl_cycles", 0),
         "zero_lease_cases": res.counts.get("zero-lease:deleted", 0) + res.counts.get("zero-lease:kept", 0),
         "three_cycle_histories": res.counts.get("histories", 0),
-        "rule": "every point of the grid (enabled x policy x sharetypes x share kind x multiset of <= %d leases over 5 renewal times around the policy threshold), one real crawl cycle each; non-trivial = expiry enabled for the share's type and >= 1 lease, so that the per-lease predicate decides; plus three-cycle histories: every ordered tuple of %s leases over {far, below, above, recent} x every non-empty subset renewed at now+10 d, cycles at now, now+35 d, now+80 d, judged after each cycle (deleted iff all leases expired then; unexpired leases still recorded)" % (3 if tier == "quick" else 5, "2" if tier == "quick" else "2..3"),
+        "rule": "every point of the grid (enabled x policy x sharetypes x share kind x multiset of <= %d leases over 5 renewal times around the policy threshold), one real crawl cycle each; non-trivial = expiry enabled for the share's type and >= 1 lease, so that the per-lease predicate decides; plus three-cycle histories: every ordered tuple of %s leases over {far, below, above, recent} x every non-empty subset renewed at now+10 d, cycles at now, now+35 d, now+80 d, judged after each cycle (deleted iff all leases expired then; unexpired leases still recorded); two thirds of the shares of a server share one prefix directory and one server per (policy, kind) is crawled with a time slice ending after every bucket" % (3 if tier == "quick" else 5, "2" if tier == "quick" else "2..3"),
     }
     return res, cov
 
